@@ -4,6 +4,7 @@ package shmipc
 
 import (
 	"fmt"
+	"syscall"
 	"testing"
 
 	"github.com/cloudwego/shmipc-go/internal/vrt"
@@ -373,6 +374,47 @@ func c11Scenarios() []bScenario {
 				}
 			}
 			done(rd)
+		})
+	}
+	// the peer is alive but has stopped reading the control connection: a message that goes over the socket stalls on a
+	// full socket buffer and must give up after ConnectionWriteTimeout (the same for a close that has to use the socket)
+	for _, what := range []string{"flush", "close"} {
+		what := what
+		add("fallback-"+what+"-peer-stopped-reading", 1, 2, func() {
+			p := newEPair(pairOpts{FreeSmall: 2, WriteTO: 500 * ms})
+			cst, _ := openBoth(p)
+			if err := syscall.SetsockoptInt(p.c.connFd, syscall.SOL_SOCKET, syscall.SO_SNDBUF, 4096); err != nil {
+				vrt.Failf("harness", "SO_SNDBUF: %v", err)
+			}
+			p.router.paused[2] = true
+			fl := &c11Call{name: "Flush(64KiB by socket)"}
+			cl := &c11Call{name: "Close(fallback stream)"}
+			cl.returned = true
+			t1 := vrt.GoProc("writer", 1, func() {
+				if what == "close" {
+					// put the stream into fallback state with a small message first, then fill the socket from another stream
+					c09Flush(cst, 1, 0, 100)
+					st2, err := p.c.OpenStream()
+					if err != nil {
+						vrt.Failf("harness", "open: %v", err)
+					}
+					c11Do(fl, func() (int, error) { return 0, c09Flush(st2, 2, 0, 64<<10) })
+					cl.returned = false
+					c11Do(cl, func() (int, error) { return 0, cst.Close() })
+					return
+				}
+				c11Do(fl, func() (int, error) { return 0, c09Flush(cst, 1, 0, 64<<10) })
+			})
+			vrt.WaitThreads(t1)
+			for _, c := range []*c11Call{fl, cl} {
+				if c.returned && c.from != 0 && c.to-c.from > int64(500*ms)+int64(100*ms) {
+					vrt.Failf("too-late", "%s returned after %d ms, ConnectionWriteTimeout is 500 ms", c.name, (c.to-c.from)/1e6)
+				}
+			}
+			if fl.err == nil {
+				vrt.Failf("flush-result", "64 KiB written to a 4 KiB socket buffer nobody reads: Flush returned nil")
+			}
+			done(fl, cl)
 		})
 	}
 	return scs
